@@ -1993,7 +1993,8 @@ class HDKey(Key):
         :return bytes:
         """
 
-        return self.hash160[:4]
+        # BIP32 identifies a key by its compressed public key, whatever form the object uses for addresses
+        return hash160(self.public_compressed_byte)[:4]
 
     @staticmethod
     def _bip38_decrypt(encrypted_privkey, password, network=DEFAULT_NETWORK, witness_type=DEFAULT_WITNESS_TYPE):
@@ -2301,7 +2302,7 @@ class HDKey(Key):
             index |= 0x80000000
             data = b'\0' + self.private_byte + index.to_bytes(4, 'big')
         else:
-            data = self.public_byte + index.to_bytes(4, 'big')
+            data = self.public_compressed_byte + index.to_bytes(4, 'big')
         key, chain = self._key_derivation(data)
 
         key = int.from_bytes(key, 'big')
@@ -2345,7 +2346,7 @@ class HDKey(Key):
             network = self.network.name
         if index >= 0x80000000:
             raise BKeyError("Cannot derive hardened key from public private key. Index must be less than 0x80000000")
-        data = self.public_byte + index.to_bytes(4, 'big')
+        data = self.public_compressed_byte + index.to_bytes(4, 'big')
         key, chain = self._key_derivation(data)
         key = int.from_bytes(key, 'big')
         if key >= secp256k1_n:
